@@ -45,6 +45,13 @@ PROPS = {
                      'typed getters are bounded Kani proofs (3-entry headers)'],
         explanation='parse_header (verbatim, incl. the real decode loop): for EVERY entry of every accepted header the stored data equals an independent decoding of the store bytes written as spec functions (strings up to the first NUL, integer arrays big-endian at full length, string / i18n arrays item by item with terminators skipped, binary verbatim) - postcondition decoded(entry, store), unbounded; typed getters return the first entry with the tag iff its type matches, else the documented error (Kani, 3 entries); get_installed_size prefers LONGSIZE then SIZE.',
     ),
+    'C07': dict(
+        level='proof', verus=['c07_payload'],
+        trusted_base=[A_TOOLS, A_EXTRACT, 'A-IO std Read / Write / Take / io::copy contracts (prelude/read.rs, io.rs)', 'A-64BIT: usize is 64 bits (global size_of usize == 8)', 'A-SLICE-LEN: slices never exceed isize::MAX bytes'],
+        assumptions=['PARTIAL: decided are the cpio framing arithmetic and size accounting of src/rpm/payload.rs (pad, Reader::read, Reader::finish, Writer::write / try_write_header / do_finish and their composition). NOT covered: compressors / decompressors (FFI), hex header field formatting and parsing (format!, from_str_radix), Reader::new, builder file ordering, FileIterator pairing, digest equality of content',
+                     'the header produced by Builder::into_header being a multiple of 4 bytes is a precondition of the composition lemma, not proved (format! based)'],
+        explanation='Verbatim bodies: pad(len) is (4 - len mod 4) mod 4 NUL bytes; Reader::read never hands out more than file_size - bytes_read, accounts exactly what it handed out and cannot overflow; Reader::finish consumes the rest of the entry plus its padding; Writer::write accepts data only while it fits the announced size and emits the header first; header + full body + finish yields hdr ++ body ++ NUL padding with 4-byte alignment.',
+    ),
     'C08': dict(
         level='proof', verus=['c10_sign'],
         trusted_base=[A_TOOLS, A_EXTRACT, 'A-HASH: sha2 / hex compute SHA-256 / lower-case hex (uninterpreted)',
@@ -85,6 +92,13 @@ PROPS = {
         explanation='Verbatim bodies of Header::size, padding_required, get_package_segment_offsets proved equal to the '
                     'mathematical segment boundaries of the canonical serialisation; unbounded in entry count and store size.',
     ),
+    'C17': dict(
+        level='proof', verus=['c17_compressor'],
+        trusted_base=[A_TOOLS, A_EXTRACT, 'A-ENC: the encoder constructors (flate2, liblzma, bzip2, zstd) do not panic inside their DOCUMENTED level ranges, which are stated as preconditions of stand-in constructors in the unit'],
+        assumptions=['claimed for ONE sentence only: "a compression level the encoder cannot honour is reported as an error or mapped to a supported level, never a crash". Destination splitting and capability text are Path / &str code: not decidable here, not claimed',
+                     'R1: all compression cfg features treated as enabled, zstdmt off'],
+        explanation='Verbatim body of TryFrom<CompressionWithLevel> for Compressor: every encoder constructor call is reached only with a level inside the documented range (precondition obligations), out-of-range levels return Err, and the variant constructed matches the variant requested.',
+    ),
     'C18': dict(
         level='proof', verus=['c18_filemode'],
         trusted_base=[A_TOOLS, A_EXTRACT],
@@ -106,6 +120,15 @@ FIX_COMMITS = [
     '6ac32fd fix: do not reserve more numeric items than the input can supply',
     'c54702a fix: as_i18n_str returns None for an empty i18n table instead of panicking',
 ]
+
+PROPS['C20'] = dict(
+    level='proof', verus=['c20_timestamp'],
+    trusted_base=[A_TOOLS, A_EXTRACT, 'A-TIME: stand-in SystemTime / Duration / chrono::DateTime types whose duration_since, as_secs, with_timezone(&Utc), timestamp carry their DOCUMENTED contracts (an instant is secs*1e9+nanos with nanos < 1e9); std and chrono arithmetic itself is not executed (Kani did not finish on std Timespec arithmetic: DESIGN exp. 15)',
+                  'vstd specifications of integer TryFrom (u64->u32, i64->u32), Result::map / map_err; assumed specification of Result::and_then'],
+    assumptions=['closure contracts are spliced annotations on the verbatim closures (Verus closures are opaque without ensures)',
+                 'Timestamp::now() unwrap (year >= 2106) is outside the property'],
+    explanation='Verbatim bodies of TryFrom<SystemTime> and TryFrom<chrono::DateTime<TZ>> for Timestamp: with x the instant in whole seconds since the epoch (floor), the result is Ok(Timestamp(x)) iff 0 <= x < 2^32, Err(Underflow) iff x < 0 (including sub-second instants before the epoch), Err(Overflow) iff x >= 2^32, over the full domain of both types and every time zone; monotone on accepted instants; no panic obligations left.',
+)
 
 NOT_APPLICABLE = {
     'C06': 'the claim lives in PackageBuilder::prepare_data/add_data (750 lines over compressor FFI, clock, HashSet, BTreeMap, Path, format!): Verus cannot take the text and CBMC does not finish even on Header::parse alone; the reachable header-codec inverse is claimed under C05/C09',
